@@ -26,6 +26,8 @@ ASSUMPTIONS = ["sources are rendered by mc/oracles/skygauss.py (gnomonic offsets
                "no claim between lattice points"]
 
 PROJ = ["SIN", "TAN", "ZEA", "ARC", "STG"]
+# beam (major px, minor px, BPA deg): round, mildly and strongly elongated, position angles over the whole range incl. > 90
+BEAMS_B = [(4, 3, 20), (5, 5, 0), (6, 2.5, 170), (5, 3, 135), (4.5, 3, -70)]
 LOCS = [(180.0, -45.0), (0.001, 10.0), (359.999, -85.0), (45.0, 80.0)]
 PHASES_T = [(0.0, 0.0), (0.25, 0.5), (0.5, 0.25), (0.75, 0.75), (0.5, 0.5), (0.0, 0.5), (0.25, 0.25), (0.75, 0.0), (0.1, 0.9)]
 PAS_T = [-80.0, -45.0, 0.0, 30.0, 60.0, 90.0]
@@ -36,8 +38,8 @@ def axes(tier, seed):
     q = tier == "quick"
     return dict(A=dict(projection=PROJ, crval=LOCS, phase=PHASES_T[:3] if q else PHASES_T, pa=PAS_T[1::2] if q else PAS_T,
                        shape_in_beams=SHAPES_T[1:] if q else SHAPES_T),
-                B=dict(docov=[True, False], amplitude=[1e-2, 1.0, 1e2], cdelt_arcsec=[3, 10, 30], beam_px=[(4, 3, 20), (5, 5, 0)],
-                       pa=[-45.0, 30.0, 90.0] if q else PAS_T, phase=PHASES_T[:2]),
+                B=dict(docov=[True, False], amplitude=[1e-2, 1.0, 1e2], cdelt_arcsec=[3, 10, 30], beam_px=BEAMS_B,
+                       pa=[-75.0, -45.0, 30.0, 90.0] if q else PAS_T, phase=PHASES_T[:2]),
                 D=dict(projection=["SIN", "ZEA"], shape_in_beams=[(1.0, 1.0), (1.2, 1.0), (1.5, 1.0)], exact_phase=[(0.5, 0.5), (0.5, 0.0), (0.0, 0.5), (0.25, 0.75)],
                        snr=[100, 1000, 10000], docov=[False, True]),
                 C=dict(realisations=8 if q else 24, modes=["white+nocov", "correlated+cov"], rms=["forced", "BANE cores=1", "BANE cores=2"],
@@ -51,8 +53,8 @@ def cases(tier, seed):
     shp = SHAPES_T[1:] if q else SHAPES_T
     for proj, loc, p, pa, s in itertools.product(PROJ, range(len(LOCS)), range(len(ph)), pas, range(len(shp))):
         yield "A", dict(proj=proj, loc=loc, phase=list(ph[p]), pa=pa, shape=list(shp[s]))
-    for docov, amp, cd, beam, pa, p in itertools.product([True, False], [1e-2, 1.0, 1e2], [3.0, 10.0, 30.0], [(4, 3, 20), (5, 5, 0)],
-                                                       [-45.0, 30.0, 90.0] if q else PAS_T, range(2)):
+    for docov, amp, cd, beam, pa, p in itertools.product([True, False], [1e-2, 1.0, 1e2], [3.0, 10.0, 30.0], BEAMS_B,
+                                                       [-75.0, -45.0, 30.0, 90.0] if q else PAS_T, range(2)):
         yield "B", dict(docov=docov, amp=amp, cdelt=cd, beam=list(beam), pa=pa, phase=list(PHASES_T[p]))
     # D: peaks exactly between pixels (no seed shift) at high signal-to-noise, beam-sized and slightly larger sources
     for proj, shp, ph, snr, docov in itertools.product(["SIN", "ZEA"], [(1.0, 1.0), (1.2, 1.0), (1.5, 1.0)], [(0.5, 0.5), (0.5, 0.0), (0.0, 0.5), (0.25, 0.75)],
